@@ -111,6 +111,7 @@ def select_all_from_table(table_name, version):
     master_schema_entries = {
         master_schema_entry.name: master_schema_entry
         for master_schema_entry in version.master_schema.master_schema_entries
+        if master_schema_entry.row_type == MASTER_SCHEMA_ROW_TYPE.TABLE
     }
     master_schema_entry = master_schema_entries[table_name]
     number_of_cells, cells = aggregate_leaf_cells(
@@ -126,6 +127,7 @@ def select_all_from_index(index_name, version):
     master_schema_entries = {
         master_schema_entry.name: master_schema_entry
         for master_schema_entry in version.master_schema.master_schema_entries
+        if master_schema_entry.row_type == MASTER_SCHEMA_ROW_TYPE.INDEX
     }
     master_schema_entry = master_schema_entries[index_name]
     number_of_cells, cells = aggregate_leaf_cells(
@@ -140,6 +142,7 @@ def create_table_signature(table_name, version, version_history=None):
     master_schema_entries = {
         master_schema_entry.name: master_schema_entry
         for master_schema_entry in version.master_schema.master_schema_entries
+        if master_schema_entry.row_type == MASTER_SCHEMA_ROW_TYPE.TABLE
     }
     master_schema_entry = master_schema_entries[table_name]
     # Signatures are not currently generated/supported for "without rowid" tables and virtual tables.
@@ -158,6 +161,7 @@ def carve_table(table_name, signature, version):
     master_schema_entries = {
         master_schema_entry.name: master_schema_entry
         for master_schema_entry in version.master_schema.master_schema_entries
+        if master_schema_entry.row_type == MASTER_SCHEMA_ROW_TYPE.TABLE
     }
     master_schema_entry = master_schema_entries[table_name]
     # Do not carve if the table is a "without rowid" table since they are not currently supported
@@ -196,6 +200,8 @@ def get_version_history_iterator(
         for master_schema_entry in version_history.versions[
             BASE_VERSION_NUMBER
         ].master_schema.master_schema_entries
+        if master_schema_entry.row_type
+        in (MASTER_SCHEMA_ROW_TYPE.TABLE, MASTER_SCHEMA_ROW_TYPE.INDEX)
     }
     return VersionHistoryParser(
         version_history,
@@ -225,6 +231,8 @@ def export_table_or_index_version_history_to_csv(
         for master_schema_entry in version_history.versions[
             BASE_VERSION_NUMBER
         ].master_schema.master_schema_entries
+        if master_schema_entry.row_type
+        in (MASTER_SCHEMA_ROW_TYPE.TABLE, MASTER_SCHEMA_ROW_TYPE.INDEX)
     }
     master_schema_entry = master_schema_entries[table_or_index_name]
     version_history_parser = VersionHistoryParser(
@@ -295,6 +303,8 @@ def export_table_or_index_version_history_to_sqlite(
             for master_schema_entry in version_history.versions[
                 BASE_VERSION_NUMBER
             ].master_schema.master_schema_entries
+            if master_schema_entry.row_type
+            in (MASTER_SCHEMA_ROW_TYPE.TABLE, MASTER_SCHEMA_ROW_TYPE.INDEX)
         }
         master_schema_entry = master_schema_entries[table_or_index_name]
         version_history_parser = VersionHistoryParser(
